@@ -9,6 +9,7 @@ import (
 	"reflect"
 	"strings"
 	"unicode"
+	"verifharness/hx"
 
 	"github.com/GoogleCloudPlatform/grpc-gcp-go/grpcgcp"
 	pb "github.com/GoogleCloudPlatform/grpc-gcp-go/grpcgcp/grpc_gcp"
@@ -49,6 +50,11 @@ type Case struct {
 	// is then compared with the result for a copy of V whose struct types are fresh (never seen by the library): what
 	// extraction returns must depend on the value and the locator only, not on what was extracted before.
 	Prev *V `json:"previousValueOfTheSameType,omitempty"`
+	// Long > 0: the value is a message that refers to itself (n.N == n, n.Ns == [n]) and the locator is LongSeg + "."
+	// repeated Long times, followed by Locator: the depth of the walk is given by the locator alone. Expected: the key
+	// "cyc" (for paths through n / ns that end in name) or an error - and the process survives.
+	Long    int    `json:"longLocatorRepeat,omitempty"`
+	LongSeg string `json:"longLocatorSegment,omitempty"`
 	// Twin names a scripted two-type scenario (see twinScenario)
 	Twin    string   `json:"twinScenario,omitempty"`
 	Locator string   `json:"locator"`
@@ -290,6 +296,46 @@ type inner struct {
 type embedsPtr struct {
 	*inner
 	Other string
+}
+
+// cyc is a message that can refer to itself.
+type cyc struct {
+	Name string
+	N    *cyc
+	Ns   []*cyc
+}
+
+// longLocator: see Case.Long. The case is written to the replay file BEFORE the call: a stack overflow kills the
+// process and cannot be caught.
+func longLocator(c *Case) string {
+	n := &cyc{Name: "cyc"}
+	n.N, n.Ns = n, []*cyc{n}
+	seg := c.LongSeg
+	if seg != "n" && seg != "ns" {
+		seg = "n"
+	}
+	loc := strings.Repeat(seg+".", c.Long) + c.Locator
+	pre := *c
+	pre.Failure, pre.Property = fmt.Sprintf("the process did not survive a locator of %d segments on a self-referencing message (stack overflow?)", c.Long+1), "C11"
+	hx.WriteReplay("C11", &pre)
+	var got []string
+	var err error
+	var p interface{}
+	func() {
+		defer func() { p = recover() }()
+		got, err = grpcgcp.VerifKeys(loc, n)
+	}()
+	hx.DropReplay("C11")
+	if p != nil {
+		return fmt.Sprintf("extraction panicked on a locator of %d segments: %v", c.Long+1, p)
+	}
+	if err == nil && c.Locator == "name" && (len(got) != 1 || got[0] != "cyc") {
+		return fmt.Sprintf("locator of %d segments through a self-referencing message returned %q, want [\"cyc\"] or an error", c.Long+1, got)
+	}
+	if err == nil && c.Locator != "name" && len(got) > 0 {
+		return fmt.Sprintf("locator %s^%d.%s returned keys %q", seg, c.Long, c.Locator, got)
+	}
+	return ""
 }
 
 // embedsPtrB is laid out exactly like embedsPtr (the twin the library meets later, see twinScenario).
@@ -586,6 +632,10 @@ const (
 func Check(c *Case) (failure string, labels map[string]int, nontrivial bool) {
 	labels = map[string]int{}
 	var msg interface{}
+	if c.Long > 0 {
+		labels["self-referencing-message-with-a-long-locator"]++
+		return longLocator(c), labels, true
+	}
 	if c.Twin != "" {
 		f := twinScenario(c)
 		labels["twin-type-scenario"]++
